@@ -215,7 +215,10 @@ func (q *QueryRangeController) Tail(w http.ResponseWriter, r *http.Request) {
 				logger.Error(err)
 				return
 			}
-		case str := <-watcher.GetRes():
+		case str, ok := <-watcher.GetRes():
+			if !ok {
+				return
+			}
 			err = con.WriteMessage(ws.TextMessage, []byte(str.Str))
 			if err != nil {
 				logger.Error(err)
